@@ -55,7 +55,7 @@ class DelayArm(Arm):
     budget = {"quick": 1200, "thorough": 12000}
     min_per_shard = 20
     required_labels = ("mixed_delayed_undelayed_from_one_source", "two_delays_one_source", "two_delays_one_target",
-                       "same_pair_twice", "vec", "novec", "alg_source")
+                       "same_pair_twice", "vec", "novec", "alg_source", "heun", "euler")
 
     def strategy(self, ctx):
         @st.composite
@@ -76,7 +76,9 @@ class DelayArm(Arm):
             dt = draw(st.sampled_from([0.01, 0.05, 0.1]))
             spec, Ds = add_delays(draw, base, dt)
             return {"spec": spec, "cfg": {"dt": dt, "steps": draw(st.integers(12, 30)),
-                                          "vectorize": draw(st.sampled_from([True, False, True]))}}
+                                          "vectorize": draw(st.sampled_from([True, False, True])),
+                                          # Heun evaluates the vector field twice per step: the delay stays d
+                                          "solver": draw(st.sampled_from(["euler", "euler", "heun"]))}}
         from ..finding_predicates import repair_case
         return case().map(lambda c: repair_case(c, ctx))
 
@@ -119,12 +121,15 @@ class DelayArm(Arm):
         # delay-free baseline
         s0 = strip_delays(spec)
         rm0 = RefModel(s0)
-        ref0 = rm0.simulate(steps, dt)[:steps]
+        solver = cfg.get("solver", "euler")
+        lab.append(solver)
+        res.labels = sorted(set(res.labels) | {solver})
+        ref0 = rm0.simulate(steps, dt, solver=solver)[:steps]
         if not np.all(np.isfinite(ref0)) or np.max(np.abs(ref0)) > 1e6:
             res.rejected = "reference not benign"
             return res
         try:
-            df0 = run_circuit(s0, steps * dt, dt, dict(outputs), vectorize=vec)
+            df0 = run_circuit(s0, steps * dt, dt, dict(outputs), vectorize=vec, solver=solver)
             a0 = np.column_stack([np.asarray(df0[f"v{i}"], dtype=float) for i in range(len(sp))])
         except HarnessError:
             raise
@@ -134,12 +139,12 @@ class DelayArm(Arm):
         if a0.shape != ref0.shape or np.max(np.abs(a0 - ref0)) > 1e-8 * (1 + np.max(np.abs(ref0))):
             res.rejected = "delay-free baseline deviates from reference (C01/C04)"
             return res
-        ref = rm.simulate(steps, dt)[:steps]
+        ref = rm.simulate(steps, dt, solver=solver)[:steps]
         if not np.all(np.isfinite(ref)) or np.max(np.abs(ref)) > 1e6:
             res.rejected = "reference not benign"
             return res
         try:
-            df = run_circuit(spec, steps * dt, dt, dict(outputs), vectorize=vec)
+            df = run_circuit(spec, steps * dt, dt, dict(outputs), vectorize=vec, solver=solver)
             a = np.column_stack([np.asarray(df[f"v{i}"], dtype=float) for i in range(len(sp))])
         except HarnessError:
             raise
@@ -219,7 +224,8 @@ class AlgChainArm(DelayArm):
             edges = list(draw(st.permutations(edges)))
             spec = gen.uniquify_init({"ops": ops, "ntypes": ntypes, "nodes": nodes, "edges": edges, "etypes": {}})
             return {"spec": spec, "cfg": {"dt": dt, "steps": draw(st.integers(12, 24)),
-                                          "vectorize": draw(st.sampled_from([True, True, False]))}}
+                                          "vectorize": draw(st.sampled_from([True, True, False])),
+                                          "solver": draw(st.sampled_from(["euler", "euler", "heun"]))}}
         from ..finding_predicates import repair_case
         return case().map(lambda c: repair_case(c, ctx))
 
